@@ -14,6 +14,7 @@ RULE = ("for every configuration of the lattice (16 flag sets x velocity_bins x 
         "step-size sets x time-signature ranges) the WHOLE vocabulary is enumerated: ids, sizes, encode/decode both ways and "
         "detokenise on every member; closure: every token emitted by tokenise on a pool of regular and irregular inputs is a "
         "member; distinct = distinct (configuration, member); non-trivial = configuration differs from the two the suite builds")
+SCALE = ('PPQN 96/480/960 configurations with step sizes and note values of that resolution (token fields of four digits) and a six-bar piece written at that resolution')
 ASSUMPTIONS = ["a tokenise call that raises TokenisationException is a rejection, not a violation"]
 REQUIRED_FLAGS = ["construction_history", "unfused_velocity", "unfused_track", "unfused_value", "no_running_values", "bins_gt_1", "multi_track",
                   "closure_tokens_checked", "rejection_observed", "irregular_input_accepted", "member_detokenised",
